@@ -106,6 +106,17 @@ Lemma search_legacy_unfold : forall c t',
   end || search_legacy t'.
 Proof. reflexivity. Qed.
 
+Ltac match_const :=
+  intros; match goal with
+  | |- context [?c =? ?k] =>
+    destruct (N.eqb_spec c k) as [->|NE]; [reflexivity|];
+    destruct c as [|p]; [reflexivity|];
+    repeat (destruct p as [p|p|]; try reflexivity); exfalso; apply NE; reflexivity
+  end.
+Lemma match_44 : forall (c : N) (A : Type) (x y : A),
+  match c with 44 => x | _ => y end = if c =? 44 then x else y.
+Proof. match_const. Qed.
+
 Lemma search_legacy_skip_digits : forall d c r, forallb is_digit d = true -> is_digit c = false -> c <> 44 ->
   search_legacy (d ++ c :: r) = search_legacy (c :: r).
 Proof.
@@ -113,11 +124,7 @@ Proof.
   change ((a :: d) ++ c :: r) with (a :: (d ++ c :: r)). rewrite search_legacy_unfold.
   change (a :: d ++ c :: r) with ((a :: d) ++ c :: r). rewrite span_digits_stop by auto.
   simpl in H. apply andb_true_iff in H. destruct H.
-  rewrite IHd by auto.
-  assert (E : match c with 44 => true | _ => false end = false).
-  { destruct (N.eqb_spec c 44). contradiction.
-    destruct c as [|p]; auto. do 6 (destruct p; auto). }
-  destruct c as [|p]; simpl; auto. do 6 (destruct p; simpl; auto). congruence.
+  rewrite IHd by auto. rewrite match_44. apply N.eqb_neq in H1. rewrite H1. auto.
 Qed.
 Lemma search_legacy_skip_char : forall c r, is_digit c = false -> search_legacy (c :: r) = search_legacy r.
 Proof. intros. rewrite search_legacy_unfold. rewrite span_digits_nondigit by auto. auto. Qed.
@@ -180,39 +187,43 @@ Proof.
   intros f H. destruct (tok_wf_parts f H) as [P Nn].
   destruct f as [n p sp | p n sp | p | n p sp]; simpl in P, Nn; unfold parse_alloc; simpl alloc_text.
   - (* [Nn, Pp] *)
-    assert (L : search_legacy (n ++ [110] ++ [44] ++ blanks sp ++ p ++ [112]) = false).
-    { simpl app. rewrite search_legacy_skip_digits by (auto using all_digits_forall; try nd; discriminate).
+    set (txt := n ++ 110 :: 44 :: blanks sp ++ p ++ [112]).
+    assert (L : search_legacy txt = false).
+    { unfold txt. rewrite search_legacy_skip_digits by (auto using all_digits_forall; try nd; discriminate).
       rewrite search_legacy_skip_char by nd. rewrite search_legacy_skip_char by nd.
       rewrite search_legacy_skip_blanks. rewrite search_legacy_skip_digits by (auto using all_digits_forall; try nd; discriminate).
       reflexivity. }
     rewrite L.
-    assert (CP : count_char 112 (n ++ [110] ++ [44] ++ blanks sp ++ p ++ [112]) = 1%nat).
-    { rewrite !count_char_app. rewrite !count_char_digits by (auto using all_digits_forall).
+    assert (CP : count_char 112 txt = 1%nat).
+    { unfold txt. change (n ++ 110 :: 44 :: blanks sp ++ p ++ [112]) with (n ++ [110; 44] ++ blanks sp ++ p ++ [112]).
+      rewrite !count_char_app. rewrite (count_char_digits _ n), (count_char_digits _ p) by (auto using all_digits_forall).
       rewrite count_char_blanks by discriminate. reflexivity. }
-    assert (CN : count_char 110 (n ++ [110] ++ [44] ++ blanks sp ++ p ++ [112]) = 1%nat).
-    { rewrite !count_char_app. rewrite !count_char_digits by (auto using all_digits_forall).
+    assert (CN : count_char 110 txt = 1%nat).
+    { unfold txt. change (n ++ 110 :: 44 :: blanks sp ++ p ++ [112]) with (n ++ [110; 44] ++ blanks sp ++ p ++ [112]).
+      rewrite !count_char_app. rewrite (count_char_digits _ n), (count_char_digits _ p) by (auto using all_digits_forall).
       rewrite count_char_blanks by discriminate. reflexivity. }
-    rewrite CP, CN. simpl.
-    change (n ++ 110 :: 44 :: blanks sp ++ p ++ [112]) with (n ++ 110 :: (44 :: blanks sp ++ p ++ [112])).
+    rewrite CP, CN. simpl. unfold txt.
     rewrite search_count_hit by auto.
     rewrite search_count_skip_digits by (auto using all_digits_forall; discriminate).
     rewrite search_count_skip_char by nd. rewrite search_count_skip_char by nd.
     rewrite search_count_skip_blanks. rewrite search_count_hit by auto. reflexivity.
   - (* [Pp, Nn] *)
-    assert (L : search_legacy (p ++ [112] ++ [44] ++ blanks sp ++ n ++ [110]) = false).
-    { simpl app. rewrite search_legacy_skip_digits by (auto using all_digits_forall; try nd; discriminate).
+    set (txt := p ++ 112 :: 44 :: blanks sp ++ n ++ [110]).
+    assert (L : search_legacy txt = false).
+    { unfold txt. rewrite search_legacy_skip_digits by (auto using all_digits_forall; try nd; discriminate).
       rewrite search_legacy_skip_char by nd. rewrite search_legacy_skip_char by nd.
       rewrite search_legacy_skip_blanks. rewrite search_legacy_skip_digits by (auto using all_digits_forall; try nd; discriminate).
       reflexivity. }
     rewrite L.
-    assert (CP : count_char 112 (p ++ [112] ++ [44] ++ blanks sp ++ n ++ [110]) = 1%nat).
-    { rewrite !count_char_app. rewrite !count_char_digits by (auto using all_digits_forall).
+    assert (CP : count_char 112 txt = 1%nat).
+    { unfold txt. change (p ++ 112 :: 44 :: blanks sp ++ n ++ [110]) with (p ++ [112; 44] ++ blanks sp ++ n ++ [110]).
+      rewrite !count_char_app. rewrite (count_char_digits _ n), (count_char_digits _ p) by (auto using all_digits_forall).
       rewrite count_char_blanks by discriminate. reflexivity. }
-    assert (CN : count_char 110 (p ++ [112] ++ [44] ++ blanks sp ++ n ++ [110]) = 1%nat).
-    { rewrite !count_char_app. rewrite !count_char_digits by (auto using all_digits_forall).
+    assert (CN : count_char 110 txt = 1%nat).
+    { unfold txt. change (p ++ 112 :: 44 :: blanks sp ++ n ++ [110]) with (p ++ [112; 44] ++ blanks sp ++ n ++ [110]).
+      rewrite !count_char_app. rewrite (count_char_digits _ n), (count_char_digits _ p) by (auto using all_digits_forall).
       rewrite count_char_blanks by discriminate. reflexivity. }
-    rewrite CP, CN. simpl.
-    change (p ++ 112 :: 44 :: blanks sp ++ n ++ [110]) with (p ++ 112 :: (44 :: blanks sp ++ n ++ [110])).
+    rewrite CP, CN. simpl. unfold txt.
     rewrite (search_count_hit 112) by auto.
     rewrite search_count_skip_digits by (auto using all_digits_forall; discriminate).
     rewrite search_count_skip_char by nd. rewrite search_count_skip_char by nd.
@@ -222,17 +233,17 @@ Proof.
     { rewrite search_legacy_skip_digits by (auto using all_digits_forall; try nd; discriminate). reflexivity. }
     rewrite L.
     assert (CP : count_char 112 (p ++ [112]) = 1%nat).
-    { rewrite !count_char_app. rewrite !count_char_digits by (auto using all_digits_forall). reflexivity. }
+    { rewrite !count_char_app. rewrite (count_char_digits _ p) by (auto using all_digits_forall). reflexivity. }
     assert (CN : count_char 110 (p ++ [112]) = 0%nat).
-    { rewrite !count_char_app. rewrite !count_char_digits by (auto using all_digits_forall). reflexivity. }
+    { rewrite !count_char_app. rewrite (count_char_digits _ p) by (auto using all_digits_forall). reflexivity. }
     rewrite CP, CN. simpl.
     rewrite search_count_skip_digits by (auto using all_digits_forall; discriminate).
     rewrite search_count_skip_char by nd. rewrite search_count_nil.
     rewrite search_count_hit by auto. reflexivity.
   - (* legacy [N, P] *)
-    assert (L : search_legacy (n ++ [44] ++ blanks sp ++ p) = true).
-    { rewrite <- (app_nil_r p). simpl app. apply search_legacy_hit; auto. }
-    rewrite L. simpl app. rewrite split_on_app.
+    assert (L : search_legacy (n ++ 44 :: blanks sp ++ p) = true).
+    { rewrite <- (app_nil_r p). apply search_legacy_hit; auto. }
+    rewrite L. rewrite split_on_app.
     rewrite split_on_notin.
     2:{ intro I. apply all_digits_forall in Nn. rewrite forallb_forall in Nn. apply Nn in I. discriminate I. }
     rewrite split_on_notin.
@@ -261,36 +272,11 @@ Proof.
   unfold strip in S. auto.
 Qed.
 
-Lemma py_int_strip : forall t, py_int t = py_int (strip t).
-Proof.
-  intros. unfold py_int.
-  assert (I : strip (strip t) = strip t).
-  { unfold strip. set (u := lstrip t).
-    assert (A : forall x, lstrip (lstrip x) = lstrip x).
-    { induction x; simpl; auto. destruct (is_ws a) eqn:E; auto. simpl. rewrite E. auto. }
-    rewrite rev_involutive. rewrite (A (rev u)).
-    assert (B : forall x, lstrip (rev (lstrip x)) = rev (lstrip x) -> True) by auto.
-    (* lstrip (rev (lstrip (rev u))) where u has no leading ws *)
-    assert (C : forall x, match lstrip x with c :: _ => is_ws c = false | [] => True end).
-    { induction x; simpl; auto. destruct (is_ws a) eqn:E; auto. }
-    assert (D : forall y, match y with c :: _ => is_ws c = false | [] => True end ->
-                          match rev (lstrip (rev y)) with c :: _ => is_ws c = false | [] => True end).
-    { intros y Hy. destruct y as [|c y]. simpl. auto.
-      (* rev (c :: y) = rev y ++ [c]; lstrip keeps at least c *)
-      simpl rev.
-      assert (F : forall z, exists z', lstrip (z ++ [c]) = z' ++ [c]).
-      { induction z; simpl. rewrite Hy. exists []. auto.
-        destruct (is_ws a). auto. exists (a :: z). auto. }
-      destruct (F (rev y)) as [z' Ez]. rewrite Ez. rewrite rev_app_distr. simpl. auto. }
-    pose proof (D u (C t)) as G. rewrite lstrip_noop; auto. }
-  rewrite I. auto.
-Qed.
-
 Lemma int_of_blanks_digits : forall k d, all_digits d = true ->
   int_of (VStr (blanks k ++ d)) = Ok (Z.of_N (dval 0 d)).
 Proof.
-  intros. simpl. rewrite py_int_strip. rewrite strip_blanks_digits by auto.
-  rewrite py_int_digits; auto.
+  intros. rewrite <- int_of_digits by auto. simpl. unfold py_int.
+  rewrite strip_blanks_digits by auto. rewrite strip_digits by (apply all_digits_forall; auto). auto.
 Qed.
 
 Lemma exceeds_Z : forall mx x,
@@ -300,6 +286,9 @@ Proof.
   - f_equal. destruct (Z.eqb_spec (Z.of_N mx) 0); destruct (N.eqb_spec mx 0); auto; lia.
   - destruct (Z.ltb_spec (Z.of_N mx) (Z.of_N x)); destruct (N.ltb_spec mx x); auto; lia.
 Qed.
+
+Lemma exceeds_0 : forall mx, exceeds mx 0 = false.
+Proof. intros. unfold exceeds. destruct mx; auto. Qed.
 
 Definition tok_exceeds (nn pp : N) (f : tokform) : bool :=
   exceeds pp (tok_p f) || match tok_nodes f with Some n => exceeds nn (dval 0 n) | None => false end.
@@ -332,10 +321,7 @@ Qed.
 
 Lemma match_lbr : forall (c : N) (A : Type) (x y : A),
   match c with 91 => x | _ => y end = if c =? lbr then x else y.
-Proof.
-  intros. destruct (N.eqb_spec c lbr). subst. reflexivity.
-  destruct c as [|p]; auto. do 7 (destruct p; auto). exfalso. apply n. reflexivity.
-Qed.
+Proof. unfold lbr. match_const. Qed.
 
 Lemma pieces_wf_segs_ok : forall ps, pieces_wf ps = true -> segs_ok (map seg_of ps) = true.
 Proof.
@@ -345,7 +331,7 @@ Proof.
     simpl. rewrite H. rewrite IHr by auto.
     assert (E1 : is_nil t = false) by (destruct t; auto; discriminate). rewrite E1.
     assert (E2 : starts_text (map seg_of r) = false).
-    { destruct r as [|q r]; auto. destruct q; auto. discriminate. }
+    { destruct r as [|q r]; auto. destruct q; auto; discriminate. }
     rewrite E2. auto.
   - apply andb_true_iff in H. destruct H as [H1 H2].
     change (map seg_of (PBare :: r)) with (SVar :: map seg_of r).
@@ -408,7 +394,7 @@ Section Loop.
                 || exceeds pp (tok_p f)) eqn:E.
       + auto.
       + unfold par at 1. simpl bind.
-        rewrite replace_tok_segs by (auto using alloc_text_ok).
+        rewrite replace_from_tok_segs by (auto using alloc_text_ok).
         change (map (sub_tok (alloc_text f) (parf (snd (tok_vals f)) (fst (tok_vals f)))) l) with (loop_step l f).
         rewrite IHfs; auto.
         * simpl. destruct (existsb (tok_exceeds nn pp) fs); auto.
@@ -526,7 +512,7 @@ Section Loop.
     destruct (toks_of ps) as [|f fs] eqn:T.
     - (* no bracketed token *)
       simpl map. unfold rejects. rewrite T. simpl existsb. simpl map. unfold sum_N. simpl fold_right.
-      unfold exceeds. rewrite !N.ltb_irrefl, !andb_false_r. simpl orb. cbv iota.
+      rewrite !exceeds_0. simpl orb. cbv iota.
       assert (M : map seg_of ps = map mid_seg ps).
       { apply map_ext_in. intros p I. destruct p; auto.
         assert (In f (toks_of ps)). { unfold toks_of. apply in_flat_map. exists (PTok f). simpl. auto. }
@@ -534,26 +520,17 @@ Section Loop.
       rewrite M. rewrite contains_var_segs by (rewrite <- M; auto). rewrite mid_has_var.
       destruct (existsb (fun p => match p with PBare => true | _ => false end) ps) eqn:B.
       + unfold replace_bare, par. simpl bind.
-        rewrite replace_var_segs by (rewrite <- ?M; auto using mid_no_tok).
+        rewrite replace_from_var_segs; [ | rewrite <- M; auto | apply mid_no_tok ].
         rewrite final_of_mid. auto.
       + rewrite final_no_bare by auto. auto.
     - (* at least one bracketed token *)
-      rewrite <- T in *. clear T f fs.
-      destruct (map alloc_text (toks_of ps)) as [|a0 as0] eqn:TT.
-      { (* impossible: handled above, but the match needs it *)
-        destruct (toks_of ps); try discriminate.
-        simpl map. unfold rejects. simpl existsb. simpl map. unfold sum_N. simpl fold_right.
-        unfold exceeds. rewrite !N.ltb_irrefl, !andb_false_r. simpl orb. cbv iota.
-        assert (M : map seg_of ps = map mid_seg ps).
-        { apply map_ext_in. intros p I. destruct p; auto. exfalso.
-          assert (In f (toks_of ps)). { unfold toks_of. apply in_flat_map. exists (PTok f). simpl. auto. }
-          unfold toks_of in H. auto. }
-        exfalso. clear - TT. discriminate TT. }
-      rewrite <- TT. clear TT a0 as0.
+      simpl map. cbv iota.
+      change (alloc_text f :: map alloc_text fs) with (map alloc_text (f :: fs)).
+      rewrite <- T in TW |- *. clear T f fs.
       rewrite max_nodes, max_procs. simpl bind.
       rewrite subst_loop_spec by auto. unfold rejects.
       destruct (existsb (tok_exceeds nn pp) (toks_of ps)) eqn:E. auto.
-      simpl bind. cbv beta iota. rewrite !Z.add_0_l. rewrite !sumZ_sum_N. rewrite !exceeds_Z.
+      rewrite !Z.add_0_l. unfold bind at 1. cbv beta iota. rewrite !sumZ_sum_N. rewrite !exceeds_Z.
       simpl orb.
       destruct (exceeds pp (sum_N (map tok_p (toks_of ps)))). auto.
       destruct (exceeds nn (sum_N (map tok_n (toks_of ps)))). auto.
@@ -561,7 +538,7 @@ Section Loop.
       rewrite contains_var_segs by (apply mid_seg_ok; auto). rewrite mid_has_var.
       destruct (existsb (fun p => match p with PBare => true | _ => false end) ps) eqn:B.
       + unfold replace_bare, par. simpl bind.
-        rewrite replace_var_segs by (auto using mid_no_tok, mid_seg_ok).
+        rewrite replace_from_var_segs by (auto using mid_no_tok, mid_seg_ok).
         rewrite final_of_mid. auto.
       + rewrite final_no_bare by auto. auto.
   Qed.
